@@ -18,7 +18,7 @@ import time
 import typing
 
 from forml import flow
-from forml.flow._graph import atomic, port
+from forml.flow._graph import atomic, port, span
 
 from detsim import runner as runmod
 from vlib import base
@@ -395,6 +395,9 @@ def run_case(ops: list[dict], known_sites: typing.Sequence[str] = ()) -> dict:
     """Execute one op sequence against the real graph layer and the model. -> result dict."""
     gc.disable()
     gc.collect()
+    if not getattr(run_case, 'frozen', False):
+        gc.freeze()  # the pre-imported image is immortal: later collections only walk this case's objects
+        run_case.frozen = True
     port.Subscription._PORTS.clear()  # pylint: disable=protected-access
     world, model = World(), Model()
     stats = collections.Counter()
@@ -402,7 +405,8 @@ def run_case(ops: list[dict], known_sites: typing.Sequence[str] = ()) -> dict:
     known_hits = []
     violation = None
 
-    def call(fn, where: str, expect_error: typing.Optional[str], step: int, mutate=None, unknown=False):
+    def call(fn, where: str, expect_error: typing.Optional[str], step: int, mutate=None, unknown=False,
+             only_cycles: typing.Optional[bool] = None):
         """Run one API call; compare verdict; on error require the graph to be exactly as it was."""
         before = world.observe()
         err = None
@@ -415,6 +419,7 @@ def run_case(ops: list[dict], known_sites: typing.Sequence[str] = ()) -> dict:
             raise CaseViolation('harness-recursion', where, step) from None
         verdict = 'error' if err is not None else 'ok'
         stats[f'verdict:{verdict}'] += 1
+        cyclic = isinstance(err, span.Traversal.Cyclic)
         if err is not None:
             if world.keep_next:
                 world.kept.append(err)  # the traceback pins the frames (and the half-made subscription)
@@ -427,6 +432,13 @@ def run_case(ops: list[dict], known_sites: typing.Sequence[str] = ()) -> dict:
                 raise CaseViolation('state-changed-after-error',
                                     f'{where}: raised TopologyError({reason}) but the graph changed: '
                                     f'{_diff(before, after)}', step)
+            if only_cycles is not None:
+                # tracing a segment may be refused for reasons the property does not list (ambiguous / disconnected
+                # tail, shape); what it does list is that cycles are rejected - and only cycles are called cycles
+                if cyclic and not only_cycles:
+                    raise CaseViolation('spurious-error', f'{where}: raised Cyclic({reason}) but no cycle is reachable '
+                                                          f'in the model', step)
+                return None
             if not unknown and expect_error is None:
                 raise CaseViolation('spurious-error', f'{where}: raised TopologyError({reason}), the model accepts it',
                                     step)
@@ -506,8 +518,20 @@ def run_case(ops: list[dict], known_sites: typing.Sequence[str] = ()) -> dict:
                     model.add_edge(tp, tb, w, T)
                     model.add_edge(lp, lb, w, L)
 
-                call(lambda: world.nodes[w].train(world.nodes[tp][tb], world.nodes[lp][lb]), where, reason, step,
-                     mutate=commit)
+                try:
+                    call(lambda: world.nodes[w].train(world.nodes[tp][tb], world.nodes[lp][lb]), where, reason, step,
+                         mutate=commit)
+                except CaseViolation as err:
+                    # listed finding 'train-not-atomic': the refused train kept its Train subscription. Adopt exactly
+                    # that state (and nothing else) so that the rest of the sequence is still judged.
+                    trial = model.clone()
+                    trial.add_edge(tp, tb, w, T)
+                    if err.klass != 'state-changed-after-error' or 'train-not-atomic' not in known_sites or \
+                            world.observe() != trial.expected() or world.invariants() is not None:
+                        raise
+                    model.raw[:] = trial.raw
+                    known_hits.append({'id': 'train-not-atomic', 'detail': err.detail, 'step': step})
+                    stats['resynced:train-not-atomic'] += 1
                 stats['op:train'] += 1
             elif kind == 'segment':
                 if nn < 1:
@@ -517,7 +541,8 @@ def run_case(ops: list[dict], known_sites: typing.Sequence[str] = ()) -> dict:
                 status, info = model.trace(head, tail)
                 where = f'step {step}: Segment(node{head}, {None if tail is None else f"node{tail}"})'
                 seg = call(lambda: flow.Segment(world.nodes[head], None if tail is None else world.nodes[tail]), where,
-                           info if status == 'error' else None, step, unknown=status == 'unknown')
+                           info if status == 'error' else None, step, unknown=status == 'unknown',
+                           only_cycles=model.has_cycle_from(head))
                 stats['op:segment'] += 1
                 if seg is not None:
                     real_tail = world.index(seg._tail)  # pylint: disable=protected-access
@@ -628,22 +653,43 @@ def _diff(exp: dict, obs: dict) -> str:
 # ------------------------------------------------------------------------------------------------
 # seed level
 # ------------------------------------------------------------------------------------------------
+def _run_many(cases: list, known_sites) -> list:
+    """Several cases in one process image (state reset between them). Any divergence seen here is re-run alone in
+    a fresh process before it is believed, so cross-case contamination can only cost a re-run."""
+    import os  # pylint: disable=import-outside-toplevel
+
+    os.dup2(os.open(os.devnull, os.O_WRONLY), 2)  # finalisers of a previous case may complain about the reset registry
+    return [run_case(ops, known_sites) for ops in cases]
+
+
 def run_batch(job) -> dict:
-    """A batch of cases; every case runs in its own fresh fork (process-global registry, gc state)."""
     seeds = job
-    out = {'seed': seeds[0], 'cases': 0, 'violations': [], 'stats': collections.Counter(), 'digests': set(),
+    out = {'seed': seeds[0], 'cases': 0, 'violations': [], 'known_hits': [], 'stats': collections.Counter(), 'digests': set(),
            'harness': None, 'sample': None}
+    cases = []
     for seed in seeds:
         rng = random.Random(seed)
-        ops = gen_ops(rng, rng.choice([6, 10, 16, 24, 30]))
-        try:
-            res = runmod.fork_run(run_case, ops, real_timeout=60)
-        except runmod.RunFailed as err:
-            out['harness'] = f'seed {seed}: {str(err)[:800]}'
-            continue
+        cases.append(gen_ops(rng, rng.choice([6, 10, 16, 24, 30])))
+    try:
+        results = runmod.fork_run(_run_many, cases, OPEN_IDS, real_timeout=120)
+    except runmod.RunFailed as err:
+        out['harness'] = f'seeds {seeds[0]}..: {str(err)[:800]}'
+        out['stats'] = {}
+        out['digests'] = []
+        out['digest'] = None
+        return out
+    for seed, ops, res in zip(seeds, cases, results):
+        if res['violation'] or res['known_hits']:
+            try:  # believe only what a fresh process reproduces
+                res = runmod.fork_run(run_case, ops, OPEN_IDS, real_timeout=60)
+            except runmod.RunFailed as err:
+                out['harness'] = f'seed {seed}: {str(err)[:800]}'
+                continue
         out['cases'] += 1
         out['stats'].update(res['stats'])
         out['digests'].add(res['digest'])
+        for hit in res['known_hits']:
+            out['known_hits'].append({**hit, 'seed': seed})
         if res['violation']:
             out['violations'].append({**res['violation'], 'seed': seed, 'ops': ops})
         elif out['sample'] is None and len(ops) <= 10:
@@ -654,9 +700,12 @@ def run_batch(job) -> dict:
     return out
 
 
+OPEN_IDS: tuple = ()
+
+
 def reproduces(ops: list[dict], klass: str) -> typing.Optional[dict]:
     try:
-        res = runmod.fork_run(run_case, ops, real_timeout=60)
+        res = runmod.fork_run(run_case, ops, OPEN_IDS, real_timeout=60)
     except runmod.RunFailed:
         return None
     vio = res['violation']
@@ -700,6 +749,8 @@ def main(argv: list[str]) -> int:
     parser.add_argument('--seeds', type=int, default=None)
     parser.add_argument('--budget', type=float, default=None)
     args = parser.parse_args(argv)
+    global OPEN_IDS  # pylint: disable=global-statement
+    OPEN_IDS = tuple(f['id'] for f in base.open_findings(PROP))
     if args.replay:
         doc = json.loads(pathlib.Path(args.replay).read_text())
         got = reproduces(doc['ops'], doc['violation']['class'])
@@ -711,7 +762,7 @@ def main(argv: list[str]) -> int:
         return base.EXIT_OK
     tier = base.tier(args.tier)
     seed0 = base.base_seed()
-    ncases = args.seeds or (12000 if tier == 'quick' else 600000)
+    ncases = args.seeds or (30000 if tier == 'quick' else 3000000)
     budget = args.budget or (40 if tier == 'quick' else 1500)
     print(f'{PROP} seed={seed0} tier={tier} cases<={ncases} budget={budget}s')
     base.clean_replays(PROP)
@@ -725,6 +776,7 @@ def main(argv: list[str]) -> int:
     digests, samples = set(), []
     cases = 0
     raw = []
+    inline_known: dict = {}
     for res in results:
         cases += res['cases']
         stats.update(res['stats'])
@@ -734,6 +786,8 @@ def main(argv: list[str]) -> int:
         if res['sample'] and len(samples) < 3:
             samples.append(res['sample'])
         raw.extend(res['violations'])
+        for hit in res['known_hits']:
+            inline_known.setdefault(hit['id'], (hit['seed'], hit))
     # group by signature; minimise the first of each group, then decide known vs new on the minimised case
     groups: dict[str, list] = collections.defaultdict(list)
     for vio in raw:
@@ -764,6 +818,9 @@ def main(argv: list[str]) -> int:
                 continue
             fresh += 1
             reported.append((vio['seed'], got, ops))
+    for fid, (seed, hit) in inline_known.items():
+        counts[fid] += stats.get(f'resynced:{fid}', 0)
+        known.setdefault(fid, (seed, hit, 0))
     known = {k: (s, v, counts[k]) for k, (s, v, _) in known.items()}
     for fid, (seed, vio, count) in sorted(known.items()):
         print(f'KNOWN-FINDING: property={PROP} {fid}: seed {seed}: {vio["detail"][:240]} [{count} cases in this group]')
